@@ -92,7 +92,7 @@ def gen_query(g, sofar):
 
 CONTRACTS = [
     Contract(
-        id='C10.resolve', target='taskchain.task:_find_task_full_name',
+        id='C10.resolve', feas_ms=300, target='taskchain.task:_find_task_full_name',
         props={'C10': 'decisive', 'C08': 'supporting'},
         inputs={'tasks': SymList(Str, 'tasks'), 'task_name': S(Str, 'task_name'), 'determine_namespace': S(Bool, 'determine_namespace')},
         call=['task_name', 'tasks', 'determine_namespace'],
